@@ -42,6 +42,15 @@ P2 ==
     /\ dev = Cfg(Named(a, DevNames), [n \in Used(a, {"g0", "g1"}) |-> IF n = "g0" THEN da ELSE db], NoFn, AddrVal, SvcVal)
     /\ tgt = Cfg(Named(b, TgtNames), [n \in Used(b, {"g0", "g1"}) |-> IF n = "g0" THEN ta ELSE tb], NoFn, AddrVal, SvcVal)
 
+(* P4: ties (C16): the vsys holds two or three identical address-groups that no rule uses; the target *)
+(* adds or rewrites rules whose groups may have exactly these members                                 *)
+Spare(ns, ms) == [n \in (IF ns = 2 THEN {"ga", "gb"} ELSE {"ga", "gb", "gc"}) |-> ms]
+P4 ==
+  \E a \in InjSeqs(GBodies("g0", "g1"), 1), b \in InjSeqs(GBodies("g0", "g1"), 2), da, ta, tb, sp \in Members, ns \in {2, 3} :
+    /\ b # <<>>
+    /\ dev = Cfg(Named(a, DevNames), [n \in Used(a, {"g0", "g1"}) |-> da] @@ Spare(ns, sp), NoFn, AddrVal, SvcVal)
+    /\ tgt = Cfg(Named(b, TgtNames), [n \in Used(b, {"g0", "g1"}) |-> IF n = "g0" THEN ta ELSE tb], NoFn, AddrVal, SvcVal)
+
 (* P3: objects with equal names and different values (edit), service-groups, unknown attribute *)
 SBodies == {Rule("", "allow", {"a1"}, {"a3"}, {"sg1"}, ""), Rule("", "allow", {"a2"}, {"a3"}, {"s80"}, "x"),
             Rule("", "allow", {"a2"}, {"a3"}, {"s80"}, "")}
@@ -96,7 +105,7 @@ M2 ==
                          c6 |-> Cfg(<<>>, NoFn, NoFn, AddrValM, SvcVal), craw |-> Cfg(pre \o app, NoFn, NoFn, AddrValM, SvcVal),
                          merged |-> Cfg(pre \o v4 \o app, NoFn, NoFn, AddrValM, SvcVal)]]
 
-Init == CASE Fam = "M2" -> M2 [] Fam = "M1" -> M1 [] Fam = "P7" -> P7 [] Fam = "P1" -> P1 [] Fam = "P2" -> P2 [] Fam = "P3" -> P3
+Init == CASE Fam = "P4" -> P4 [] Fam = "M2" -> M2 [] Fam = "M1" -> M1 [] Fam = "P7" -> P7 [] Fam = "P1" -> P1 [] Fam = "P2" -> P2 [] Fam = "P3" -> P3
 Next == UNCHANGED <<dev, tgt>>
 HasTie == \E g, h \in DOMAIN dev.groups : g # h /\ dev.groups[g] = dev.groups[h]
 Out == PrintT(<<"VOUT", ToJson([fam |-> Fam, dev |-> dev, tgt |-> tgt, tie |-> HasTie])>>)
